@@ -169,6 +169,8 @@ pub struct Exec<'a> {
     pub txn_ops: u32,
     /// reader observations may fail (faults are injected while they run)
     pub fault_profile_reads: bool,
+    /// an explicit merge was left running without anybody waiting for it (future dropped)
+    pub unwaited_merge: bool,
 }
 
 pub fn settings_of(cfg: &Cfg) -> IndexSettings {
@@ -394,6 +396,7 @@ impl<'a> Exec<'a> {
             cur_threads: cfg.index_threads,
             txn_ops: 0,
             fault_profile_reads: false,
+            unwaited_merge: false,
         };
         let w = make_writer(&e.index, cfg, cfg.index_threads)
             .map_err(|err| format!("HARNESS: first writer failed: {err}"))?;
@@ -491,6 +494,7 @@ impl<'a> Exec<'a> {
             Op::Commit => self.op_commit(None, true, false),
             Op::PrepareCommit { payload, commit } => self.op_commit(payload.clone(), *commit, true),
             Op::Rollback => self.op_rollback(),
+            Op::PrepareDrop => self.op_prepare_drop(),
             Op::Merge { sel, wait } => self.op_merge(*sel, *wait),
             Op::MergeWait => self.op_merge_wait(),
             Op::WaitMerges { threads } => self.op_wait_merges(*threads),
@@ -733,6 +737,20 @@ impl<'a> Exec<'a> {
         }
     }
 
+    /// `prepare_commit()` dropped without commit or abort: the pending documents are flushed into
+    /// uncommitted segments, nothing is published, the transaction goes on.
+    fn op_prepare_drop(&mut self) {
+        let Some(w) = self.writer.as_mut() else { return };
+        match catch(|| w.prepare_commit().map(|pc| pc.opstamp())) {
+            Err(p) => self.api_panic("prepare_commit", p),
+            Ok(Err(e)) => self.api_err("prepare_commit", e.to_string()),
+            Ok(Ok(stamp)) => {
+                self.note_stamp("prepare_commit", stamp);
+                self.out.probe("prepare_commit_dropped");
+            }
+        }
+    }
+
     fn op_rollback(&mut self) {
         let Some(w) = self.writer.as_mut() else { return };
         match catch(|| w.rollback()) {
@@ -743,6 +761,9 @@ impl<'a> Exec<'a> {
         self.txn_ops = 0;
                 self.last_stamp = None;
                 self.delete_all_since_commit = false;
+                if !self.pending_merges.is_empty() {
+                    self.unwaited_merge = true;
+                }
                 self.pending_merges.clear();
                 self.check_rollback_stamp("rollback", stamp);
                 self.check_content("after_rollback");
@@ -880,6 +901,9 @@ impl<'a> Exec<'a> {
     }
 
     fn op_reopen(&mut self, threads: usize) {
+        if !self.pending_merges.is_empty() {
+            self.unwaited_merge = true;
+        }
         self.pending_merges.clear();
         if let Some(w) = self.writer.take() {
             if let Err(p) = catch(|| drop(w)) {
@@ -916,7 +940,7 @@ impl<'a> Exec<'a> {
                     && self.case.cfg.merge_policy == MergePol::NoMerge
                     && self.pending_merges.is_empty()
                     && self.txn_ops == 0
-                    && self.out.probes.get("merge_explicit_started").is_none()
+                    && !self.unwaited_merge
                     && self.out.violations.is_empty()
                 {
                     sched::quiesce();
